@@ -27,6 +27,12 @@ def gen_legacy(rng):
                          'missing': rng.random() < 0.03, 'noattrs': rng.random() < 0.03})
         groups.append({'path': path, 'name': names[i], 'shape': shape, 'dtype': rng.choice(DT), 'tok': rng.randrange(1, 100), 'dims': dims,
                        'nodata': rng.random() < 0.03})
+    if ngroups >= 2 and rng.random() < 0.35:
+        # several data groups of one and the same layout (shape and dtype), each with its own content
+        for g in groups[1:]:
+            g['shape'] = list(groups[0]['shape']); g['dtype'] = groups[0]['dtype']
+            g['dims'] = [dict(d, tok=rng.randrange(1, 50)) for d in groups[0]['dims']]
+            g['tok'] = groups[0]['tok'] + 1 + groups.index(g)
     return {'kind': 'legacy', 'groups': groups, 'extras': rng.random() < 0.5}
 
 
@@ -148,8 +154,26 @@ def run_case(c, scratch):
             else:
                 out['gen2'] = ['other', type(r2).__name__]
             os.remove(p2)
+            # ... also when the second generation is written over the very path the legacy file was imported from
+            import shutil
+            p3 = p + '.3'
+            shutil.copyfile(p, p3)
+            with core.quiet():
+                r_ = emdfile.read(p3)
+                emdfile.save(p3, r_, mode='o')
+                r3 = emdfile.read(p3)
+            if isinstance(r3, emdfile.Array):
+                out['gen2_same_path'] = ['array', abs_arr(r3)]
+            elif isinstance(r3, emdfile.Root):
+                out['gen2_same_path'] = ['root', [abs_arr(r3.tree(k)) for k in r3._branch._dict.keys()], r3.name]
+            else:
+                out['gen2_same_path'] = ['other', type(r3).__name__]
+            os.remove(p3)
         except BaseException as e:
             out['gen2_exc'] = type(e).__name__ + ': ' + str(e)[:100]
+            for q in (p + '.2', p + '.3'):
+                if os.path.exists(q):
+                    os.remove(q)
     except BaseException as e:
         out['raised'] = True; out['exc'] = type(e).__name__ + ': ' + str(e)[:100]
     out['sha_unchanged'] = (out['sha'] == T.sha(p))
